@@ -98,6 +98,29 @@ Proof.
     rewrite (not_terminal_thm w lg io _ DPanicL Ht). cbn [snd]. split; [congruence|discriminate].
 Qed.
 
+(* ---------------- the message ---------------- *)
+(* what a call does never depends on the message its arguments amount to (any method, any level) *)
+Theorem message_irrelevant w lg io m l msg :
+  fst (front_call w lg io m l msg) = log_call w lg io (fam_of m) l.
+Proof. unfold front_call. cbn [fst]. destruct (log_call w lg io (fam_of m) l); reflexivity. Qed.
+
+(* a terminal call terminates whatever the message (empty, blank before trimming, anything); when
+   the action is the panic, the panic carries exactly that message *)
+Theorem any_message_thm w lg io m l msg :
+  In m methods -> can_log m l = true -> terminal lg l ->
+  front_call w lg io m l msg =
+  (write_events io l (appended w (lcore lg) l), Some (expected_action lg l),
+   panic_value (Some (expected_action lg l)) msg).
+Proof.
+  intros Hm Hc Ht. unfold front_call. rewrite (terminates_thm w lg io m l Hm Hc Ht). reflexivity.
+Qed.
+Theorem panic_carries_message w lg io m l msg :
+  In m methods -> can_log m l = true -> terminal lg l -> expected_action lg l = APanic ->
+  snd (front_call w lg io m l msg) = Some msg.
+Proof.
+  intros Hm Hc Ht Ha. rewrite (any_message_thm w lg io m l msg Hm Hc Ht), Ha. reflexivity.
+Qed.
+
 (* ---------------- what has happened before the terminal action ---------------- *)
 Lemma writes_of_write_events io l ws : writes_of (write_events io l ws) = leaves_of ws.
 Proof.
@@ -246,12 +269,16 @@ Proof.
     rewrite (not_terminal_thm w lg all_io _ _ Hn), (after_hook_not_terminal lg _ Hn). reflexivity.
 Qed.
 
+Lemma enc_term_spec_term lg l msg :
+  enc_term (must_end lg l) (panic_value (must_end lg l) msg) = spec_term lg l msg.
+Proof. unfold spec_term, panic_value. destruct (must_end lg l) as [[| | |k]|]; reflexivity. Qed.
+
 Lemma spec_model_call w lg cl : wf_call cl = true -> spec_call w lg cl (model_call w lg cl) = true.
 Proof.
-  intros Hwf. unfold spec_call, model_call. rewrite (log_call_wf w lg cl Hwf).
+  intros Hwf. unfold spec_call, model_call, front_call. rewrite (log_call_wf w lg cl Hwf). cbn [fst snd].
   unfold sx_nth. cbn [sx_l nth]. rewrite dec_enc_evs.
   rewrite writes_of_write_events, hooks_of_write_events, appended_leaves, appended_hooks, !nat_list_eqb_refl.
-  rewrite sync_ok_write_events, sx_eqb_refl. reflexivity.
+  rewrite sync_ok_write_events, enc_term_spec_term, sx_eqb_refl. reflexivity.
 Qed.
 
 Lemma spec_model_calls w lg cls : forallb wf_call cls = true -> spec_calls w lg cls (map (model_call w lg) cls) = true.
